@@ -145,4 +145,14 @@ example : execQuery exEnv exData {} (.select [] true [.item (.col ["a"]) "a" ""]
 example : execQuery exEnv exData {} (.select [] false [.item (.aggr "count" []) "n" "n", .item (.aggr "sum" [.col ["a"]]) "s" "s"]
       (.table ["t"] "" "t") (.cmp .gt (.col ["b"]) (.num 0)) [] (.bool true) [] (some 1) none)
     = .ok (.arr [.obj [("n", .num 3), ("s", .num 5)]]) := by decide
+/-- `SELECT SUM(a) AS s, COUNT(*) AS n FROM t WHERE a * 4 > SUM(a)`: the `SUM(a)` inside WHERE is over ALL source rows
+    (2+1+2+5 = 10: the filter has not run), the `SUM(a)` of the same text in the select list is over the one row that
+    passed (a = 5).  The implementation shared one memo entry between the two until repair D53 (it answered s = 10). -/
+example : execQuery exEnv exData {} (.select [] false [.item (.aggr "sum" [.col ["a"]]) "s" "s", .item (.aggr "count" []) "n" "n"]
+      (.table ["t"] "" "t") (.cmp .gt (.bin .mult (.col ["a"]) (.num 4)) (.aggr "sum" [.col ["a"]])) [] (.bool true) [] none none)
+    = .ok (.arr [.obj [("s", .num 5), ("n", .num 1)]]) := by decide
+/-- ... and when no row passes, the select list's aggregate is NULL / 0 although the WHERE-phase value exists (the witness of D53) -/
+example : execQuery exEnv exData {} (.select [] false [.item (.aggr "sum" [.col ["a"]]) "s" "s", .item (.aggr "count" []) "n" "n"]
+      (.table ["t"] "" "t") (.cmp .gt (.col ["a"]) (.aggr "sum" [.col ["a"]])) [] (.bool true) [] none none)
+    = .ok (.arr [.obj [("s", .null), ("n", .num 0)]]) := by decide
 end Genql.Pipeline
